@@ -99,6 +99,37 @@ let eval old toks =
   | ["cset_d"; x; y] -> outc (cdpe_set_d (fl x) (fl y))
   | ["cget_d"; a; b; c; d] | ["cget_x"; a; b; c; d] ->
       let (x, y) = (pick cdpe_get_d cdpe_get_d_old) (cd a b c d) in hx x ^ " " ^ hx y
+  (* remaining public functions: aliases, accessors, structural operations *)
+  | ["d"; d] -> outr (rdpe_set_d (fl d))
+  | ["2dl"; d; l] -> outr (rdpe_set_2dl (fl d) (z_of_dec l))
+  | ["get_2dl"; m; e] | ["set"; m; e] -> outr (rd m e)
+  | ["clear"; _; _] -> outr rdpe_zero
+  | ["swap"; a; b; c; d] -> outr (rd c d) ^ " " ^ outr (rd a b)
+  | ["add_d"; a; b; d] -> outr (rdpe_add_d (rd a b) (fl d))
+  | ["sub_d"; a; b; d] -> outr (rdpe_sub_d (rd a b) (fl d))
+  | ["add_eq_d"; a; b; d] -> outr (rdpe_add_eq_d (rd a b) (fl d))
+  | ["sub_eq_d"; a; b; d] -> outr (rdpe_sub_eq_d (rd a b) (fl d))
+  | ["cd"; x; y] | ["cx"; x; y] | ["cset_x"; x; y] -> outc (cdpe_set_d (fl x) (fl y))
+  | ["ce"; a; b; c; d] | ["cset_e"; a; b; c; d] | ["cget_e"; a; b; c; d] | ["cset"; a; b; c; d] -> outc (cd a b c d)
+  | ["cclear"; _; _; _; _] -> outc { cre = rdpe_zero; cim = rdpe_zero }
+  | ["cswap"; _; _; _; _; e; f; g; h] -> outc (cd e f g h)
+  | ["c2dl"; a; b; c; d] | ["cset_2dl"; a; b; c; d] -> outc (cdpe_set_2dl (fl a) (z_of_dec b) (fl c) (z_of_dec d))
+  | ["cneg"; a; b; c; d] | ["cneg_eq"; a; b; c; d] -> outc (cdpe_neg (cd a b c d))
+  | ["ccon"; a; b; c; d] | ["ccon_eq"; a; b; c; d] -> outc (cdpe_con (cd a b c d))
+  | ["crot"; a; b; c; d] | ["crot_eq"; a; b; c; d] -> outc (cdpe_rot (cd a b c d))
+  | ["cflip"; a; b; c; d] | ["cflip_eq"; a; b; c; d] -> outc (cdpe_flip (cd a b c d))
+  | ["cadd_eq"; a; b; c; d; e; f; g; h] -> outc (cdpe_add_eq (cd a b c d) (cd e f g h))
+  | ["csub_eq"; a; b; c; d; e; f; g; h] -> outc (cdpe_sub_eq (cd a b c d) (cd e f g h))
+  | ["cdiv_eq"; a; b; c; d; e; f; g; h] -> outc ((pick cdpe_div_eq cdpe_div_eq_old) (cd a b c d) (cd e f g h))
+  | ["cmul_eq_e"; a; b; c; d; m; e] -> outc (cdpe_mul_e (cd a b c d) (rd m e))
+  | ["cdiv_eq_e"; a; b; c; d; m; e] -> outc (cdpe_div_e (cd a b c d) (rd m e))
+  | ["cmul_eq_d"; a; b; c; d; x] -> outc (cdpe_mul_d (cd a b c d) (fl x))
+  | ["cdiv_eq_d"; a; b; c; d; x] -> outc (cdpe_div_d (cd a b c d) (fl x))
+  | ["cmul_x"; a; b; c; d; x; y] | ["cmul_eq_x"; a; b; c; d; x; y] -> outc (cdpe_mul_x (cd a b c d) (fl x) (fl y))
+  | ["cpow_eq_si"; a; b; c; d; i] -> outc ((pick cdpe_pow_si cdpe_pow_si_old) (cd a b c d) (z_of_dec i))
+  | ["ceq_zero"; a; b; c; d] -> outb (cdpe_eq_zero (cd a b c d))
+  | ["ceq"; a; b; c; d; e; f; g; h] -> outb (cdpe_eq (cd a b c d) (cd e f g h))
+  | ["cne"; a; b; c; d; e; f; g; h] -> outb (cdpe_ne (cd a b c d) (cd e f g h))
   | _ -> "ERR"
 
 let () =
